@@ -151,7 +151,20 @@ TQuery ==
   /\ Holds(QueryOK(Line.q, Line.lay, Line.conc, Line.res))
   /\ UNCHANGED vars
 
-TraceNext == TReset \/ TWrite \/ TFlush \/ TCompact \/ TReopen \/ TQuery
+\* the leaf targets the REAL broker state manager planned (Choose) for the storage state of a layout: leaves = the shards
+\* every leaf of the layout leads; targets = <<leaf, shards>> as planned.  Every shard exactly once, at its leader; a
+\* leaf without shards is no target.
+SetOf(sq) == {sq[k] : k \in 1..Len(sq)}
+TPlan ==
+  /\ Ev("Plan")
+  /\ LET want == {<<i, SetOf(Line.leaves[i])>> : i \in {j \in 1..Len(Line.leaves) : Len(Line.leaves[j]) > 0}}
+         got == {<<Line.targets[t][1], SetOf(Line.targets[t][2])>> : t \in 1..Len(Line.targets)}
+     IN /\ got = want
+        /\ Len(Line.targets) = Cardinality(want)
+        /\ \A t \in 1..Len(Line.targets) : Len(Line.targets[t][2]) = Cardinality(SetOf(Line.targets[t][2]))
+  /\ UNCHANGED vars
+
+TraceNext == TReset \/ TWrite \/ TFlush \/ TCompact \/ TReopen \/ TQuery \/ TPlan
 TraceSpec == TraceInit /\ [][TraceNext]_tvars
 HighWater == TLCSet(1, IF l > TLCGet(1) THEN l ELSE TLCGet(1))
 TraceAccepted ==
